@@ -133,6 +133,9 @@ func payload(size int) []byte {
 }
 
 func run(sc *scenario, scratch string) ([]map[string]any, error) {
+	if sc.Eager == "reopen" {
+		return runReopen(sc, scratch)
+	}
 	if sc.Eager != "" {
 		return runEager(sc, scratch)
 	}
